@@ -90,6 +90,23 @@ try:
     for ext, v in found.items():
         if v != want:
             bad.append(f"the {ext} output carries hash {v}, the parser computed {want}")
+    # a name that fills the C back end's 48-column name field
+    LONG = "CURSOR_FEEDBACK_DECODER_OUTPUT_VELOCITY_ESTIMATE_MSG"
+    try:
+        hl, _, _ = hashes(dict(BASE, name=LONG, id=1240), os.path.join(tmp, "long"))
+        outl = os.path.join(tmp, "outl")
+        os.makedirs(outl, exist_ok=True)
+        rtma_compile([str(pathlib.Path(tmp) / "long" / "defs.yaml")], out_dir=outl, out_name="m", python=False, c_lang=True, javascript=False, matlab=False)
+        for root, _, files in os.walk(outl):
+            for fn in files:
+                if fn.endswith(".h"):
+                    m = re.search(rf"^#define HASH_{LONG}[ \t]+0x([0-9A-Fa-f]+)", open(os.path.join(root, fn)).read(), re.M)
+                    if not m:
+                        bad.append(f"the .h output carries hash <none: no `#define HASH_{LONG} <value>` line> for a {len(LONG)}-character message name, the parser computed {hl[:8]}")
+                    elif m.group(1).lower() != hl[:8].lower():
+                        bad.append(f"the .h output carries hash {m.group(1)} for {LONG}, the parser computed {hl[:8]}")
+    except Exception as ex:
+        print("C13-REPLAY-NOTE: long-name compile failed:", repr(ex)[:200])
 finally:
     shutil.rmtree(tmp, ignore_errors=True)
 for b in bad:
